@@ -107,7 +107,7 @@ Print Assumptions C11_version_refuted_when_and.
 
 (* non-vacuity *)
 Definition ex_items : list item :=
-  [ ILeaf (LPtr true (Some 5)); IObj 2 5 [LPrim KInt16 32768; LPtr false (Some 5); LStr [200; 1]]; ILeaf (LStr []) ].
+  [ ILeaf (LPtr true (Some 5)); IObj 2 5 [LPrim KUInt8 0; LPrim KInt16 32768; LPtr false (Some 5); LStr [200; 1]]; ILeaf (LStr []) ].
 
 Example C11_example_layout :
   wf_case ex_h ex_items = true /\ nlen (write ex_h ex_items) = 140 /\
